@@ -226,6 +226,10 @@ def run_histories(ctx, n_jobs):
             text = rng.choice(['units raw\n', 'print 7 print 8\n', 'assign zz 5\n', 'hue 123 duration 4 time 2\n', 'define kk 9\n', '',
                                'define kk 9\nprintf "{kk} {} " kk\n', 'define kk "light_1"\nassign zz kk\nprintf "{zz} {kk} " \n',
                                'assign zz 5\nprintf "{zz} {} {hue} " zz\nhue 77\n', 'define k1 1 define k2 {k1 + 1}\nprint k2\n']) + text
+        if rng.random() < 0.25:
+            # a run that aborts on a run-time error while an output statement has values waiting
+            text = text + rng.choice(['\nassign zz0 0\nprintf "{} {}\\n" 7 {100 / zz0}\nprint 5\n', '\nprint 11 printf "{} {} {}" 1 2 {1 % 0}\n',
+                                      '\nassign zz1 "a"\nprintln {zz1 * zz1}\n'])
         r = JobRunner(world)
         try:
             job = r.new_job(text)
